@@ -551,8 +551,8 @@ pub fn run_pool(units: &[Box<dyn Unit>], cfg: &RunCfg, width: usize) -> Vec<Unit
                         } else {
                             "?".into()
                         };
-                        eprintln!(
-                            "pcverif: harness bug: unit {} panicked outside a guarded call: {}",
+                        println!(
+                            "INCONCLUSIVE: harness bug: unit {} panicked outside a guarded call: {}",
                             units[ui].name(),
                             msg
                         );
